@@ -159,60 +159,94 @@ def _step(d, op, f):
     return None
 
 
+_NN = {}
+
+
+def _nn(a):
+    v = _NN.get(a)
+    if v is None:
+        v = _NN[a] = atom_nonneg(a)
+    return v
+
+
+def _diff(terms, k, f, sign, addk):
+    """(terms, k) - sign * f - addk as (dict, const) without building a normalised Lin"""
+    r = dict(terms)
+    for a, c in f.terms:
+        v = r.get(a, 0) - sign * c
+        if v:
+            r[a] = v
+        else:
+            r.pop(a, None)
+    return r, k - sign * f.k - addk
+
+
+def _good(r, k):
+    if k > 0:
+        return False
+    for a, c in r.items():
+        if c >= 0 or not _nn(a):
+            return False
+    return True
+
+
+def _steps(op):
+    """(sign, addk) variants of subtracting a fact: `f <= 0`: d - f; `f < 0`: d - (f + 1); `f == 0`: d - f and d + f"""
+    if op == "<=":
+        return ((1, 0),)
+    if op == "<":
+        return ((1, 1),)
+    return ((1, 0), (-1, 0))
+
+
 def nonpos(d, facts, depth=2):
     """is linear form d <= 0 implied by at most two asserted inequalities
     (plain linear combination, no solver)?"""
     d = lin(d)
     if d.is_const():
         return d.k <= 0
-    if d.k <= 0 and all(c < 0 and atom_nonneg(a) for a, c in d.terms):
+    if d.k <= 0 and all(c < 0 and _nn(a) for a, c in d.terms):
         return True
     datoms = set(a for a, _ in d.terms)
     cand = [(op, f) for op, f in facts if op in ("<", "<=", "==") and any(a in datoms for a, _ in f.terms)]
+    dterms, dk, nd = d.terms, d.k, len(d.terms)
     # one-step implications are tried against every fact; the two-step search below stays bounded
     if len(cand) > 24:
         for op, f in cand[:-24]:
-            for r in ([_step(d, op, f)] if op != "==" else [d - f, d + f]):
-                if r is None:
-                    continue
-                if r.is_const():
-                    if r.k <= 0:
-                        return True
-                elif r.k <= 0 and all(c < 0 and atom_nonneg(a) for a, c in r.terms):
+            for sign, addk in _steps(op):
+                r, k = _diff(dterms, dk, f, sign, addk)
+                if _good(r, k):
                     return True
     cand = cand[-24:]
     rest = []
     for op, f in cand:
-        rs = [_step(d, op, f)] if op != "==" else [d - f, d + f]
-        for r in rs:
-            if r is None:
-                continue
-            if r.is_const():
-                if r.k <= 0:
+        for sign, addk in _steps(op):
+            r, k = _diff(dterms, dk, f, sign, addk)
+            if not r:
+                if k <= 0:
                     return True
                 continue
-            if r.k <= 0 and all(c < 0 and atom_nonneg(a) for a, c in r.terms):
+            if _good(r, k):
                 return True
-            if len(r.terms) <= len(d.terms):
-                rest.append((r, f))
+            if len(r) <= nd:
+                rest.append((r, k, f))
     if depth > 1:
-        for r, used in rest[:12]:
-            ratoms = set(a for a, _ in r.terms)
+        for r, k, used in rest[:12]:
+            rt = tuple(r.items())
             for op, f in facts[-40:]:
                 if f is used or op not in ("<", "<="):
                     continue
-                if not any(a in ratoms for a, _ in f.terms):
+                hit = False
+                for a, _ in f.terms:
+                    if a in r:
+                        hit = True
+                        break
+                if not hit:
                     continue
-                r2 = _step(r, op, f)
-                if r2 is None:
-                    continue
-                if r2.is_const():
-                    if r2.k <= 0:
-                        return True
-                elif r2.k <= 0 and all(c < 0 and atom_nonneg(a) for a, c in r2.terms):
+                r2, k2 = _diff(rt, k, f, 1, 1 if op == "<" else 0)
+                if _good(r2, k2):
                     return True
     return False
-
 
 def has_view_sym(l):
     for a in lin(l).atoms():
